@@ -612,6 +612,147 @@ def lineage_queue_step(interp, c, case):
          "[division] each daughter that ended within the grid is queued, state and record together", "lineage daughters queued", K)
 
 
+# ---------------------------------------------------------------------------------------------------------------------
+# the concrete lineage interface: which object of the model each index addresses
+class _LStubModel:
+    """a model made of recording stubs, in the shape LineageCSimInterface.__init__ reads"""
+    _pyxsym_duck = True
+    initialized = True
+
+    def __init__(self, c, S, R, nVR, nDR, nXR, nVE, nDE, nXE):
+        from pyxsym.values import CVector, VecPtr
+        self.c = c
+        self.log = []
+        mk = lambda kind, n: [_LStub(self, kind, i) for i in range(n)]
+        self.props = mk("prop", R)
+        self.vrules, self.drules, self.xrules = mk("volume_rule", nVR), mk("division_rule", nDR), mk("death_rule", nXR)
+        self.vevents, self.devents, self.xevents = mk("volume_event", nVE), mk("division_event", nDE), mk("death_event", nXE)
+        self.lprops = mk("vprop", nVE) + mk("dprop", nDE) + mk("xprop", nXE)
+        self.rule_splitters, self.event_splitters = mk("rule_splitter", nDR), mk("event_splitter", nDE)
+        self._vec = {k: CVector(v) for k, v in dict(p=self.props, d=[None] * R, r=[], lp=self.lprops, vr=self.vrules, dr=self.drules, xr=self.xrules,
+                                                      ve=self.vevents, de=self.devents, xe=self.xevents).items()}
+        self._VecPtr = VecPtr
+        self.U = np.zeros((S, R), dtype=object)
+        self.D = np.zeros((S, R), dtype=object)
+        self.x0 = np.zeros(S, dtype=object)
+        self.params = np.array([c.real("par0")], dtype=object)
+        self.n = dict(VR=nVR, DR=nDR, XR=nXR, VE=nVE, DE=nDE, XE=nXE)
+
+    def py_initialize(self):
+        pass
+
+    def _vp(self, k):
+        return self._VecPtr(self._vec[k])
+    get_c_propensities = lambda self: self._vp("p")
+    get_c_delays = lambda self: self._vp("d")
+    get_c_repeat_rules = lambda self: self._vp("r")
+    get_c_lineage_propensities = lambda self: self._vp("lp")
+    get_c_volume_rules = lambda self: self._vp("vr")
+    get_c_division_rules = lambda self: self._vp("dr")
+    get_c_death_rules = lambda self: self._vp("xr")
+    get_c_volume_events = lambda self: self._vp("ve")
+    get_c_division_events = lambda self: self._vp("de")
+    get_c_death_events = lambda self: self._vp("xe")
+    get_update_array = lambda self: self.U
+    get_delay_update_array = lambda self: self.D
+    get_species_values = lambda self: self.x0
+    get_params_values = lambda self: self.params
+    py_get_num_division_rules = lambda self: self.n["DR"]
+    py_get_num_volume_rules = lambda self: self.n["VR"]
+    py_get_num_death_rules = lambda self: self.n["XR"]
+    py_get_num_division_events = lambda self: self.n["DE"]
+    py_get_num_volume_events = lambda self: self.n["VE"]
+    py_get_num_death_events = lambda self: self.n["XE"]
+    py_get_num_lineage_propensities = lambda self: len(self.lprops)
+    py_get_volume_splitters = lambda self: (list(self.rule_splitters), list(self.event_splitters))
+
+
+class _LStub:
+    _pyxsym_duck = True
+
+    def __init__(self, model, kind, i):
+        self.m, self.kind, self.i = model, kind, i
+
+    def _rec(self, what, *args):
+        v = self.m.c.real("%s%d_%s_%d" % (self.kind, self.i, what, len(self.m.log)))
+        self.m.log.append((self.kind, self.i, what, args, v))
+        return v
+
+    def get_stochastic_volume_propensity(self, state, params, V, t):
+        return self._rec("sv", V, t)
+
+    def get_volume(self, state, params, V, t, dt=None):
+        return self._rec("vol", V, t, dt)
+
+    def check_dead(self, state, params, t, V, t0, V0):
+        v = self.m.c.int("%s%d_fires_%d" % (self.kind, self.i, len(self.m.log)), lo=0, hi=1)
+        self.m.log.append((self.kind, self.i, "check", (t, V, t0, V0), v))
+        return v
+    check_divide = check_dead
+
+    def partition(self, parent):
+        self.m.log.append((self.kind, self.i, "partition", (parent,), None))
+        return np.array([self, parent], dtype=object)
+
+
+def lineage_interface_job(interp, c, case):
+    """LineageCSimInterface on a model of recording stubs: every index (propensity slot, rule, event, division code) addresses
+    the object the model's definition order assigns to it"""
+    S, R, nVR, nDR, nXR, nVE, nDE, nXE = case
+    L = interp.load("bioscrape.lineage")
+    M = _LStubModel(c, S, R, nVR, nDR, nXR, nVE, nDE, nXE)
+    itf = L.ns["LineageCSimInterface"](M)
+    x = sym_array(c, "x", S, "int", lo=0)
+    V, t, dt = c.real("V", lo=0, lo_strict=True), c.real("t"), c.real("dt", lo=0, lo_strict=True)
+    K = {"kind": "lineage", "death": True}
+    NP = R + nVE + nDE + nXE
+    dest = np.zeros(NP, dtype=object)
+    del M.log[:]
+    itf.compute_lineage_propensities(ptr(interp, x.copy()), ptr(interp, dest), V, t)
+    order = [("prop", i) for i in range(R)] + [("vprop", i) for i in range(nVE)] + [("dprop", i) for i in range(nDE)] + [("xprop", i) for i in range(nXE)]
+    ok = [(e[0], e[1]) for e in M.log] == order and all(dest[k] is M.log[k][4] for k in range(NP)) and all(e[3] == (V, t) or (e[3][0] is V and e[3][1] is t) for e in M.log)
+    _rep(c, ok, "lineage interface: propensity slots are the reactions, then the volume, division and death events, each evaluated once at the "
+                "current volume and time", "lineage propensity slots", K)
+    # volume rules thread the volume through in order
+    del M.log[:]
+    out = itf.apply_volume_rules(ptr(interp, x.copy()), V, t, dt, 1)
+    ok = [(e[0], e[1]) for e in M.log] == [("volume_rule", i) for i in range(nVR)]
+    cur = V
+    for e in M.log:
+        ok = ok and (e[3][0] is cur) and (e[3][1] is t) and (e[3][2] is dt)
+        cur = e[4]
+    _rep(c, ok and out is cur, "lineage interface: the volume rules are applied in order, each to the volume the previous one returned", "lineage volume rules", K)
+    for what, kindname, n_ in (("apply_death_rules", "death_rule", nXR), ("apply_division_rules", "division_rule", nDR)):
+        del M.log[:]
+        V0, t0 = c.real("V0"), c.real("t0")
+        r = getattr(itf, what)(ptr(interp, x.copy()), V, t, V0, t0, 1)
+        fired = [e[1] for e in M.log if e[4] == 1]
+        asked = [(e[0], e[1]) for e in M.log]
+        want = fired[0] if fired else -1
+        _rep(c, r == want and asked == [(kindname, i) for i in range(len(asked))] and len(asked) == (want + 1 if fired else n_)
+             and all(e[3][0] is t and e[3][1] is V and e[3][2] is t0 and e[3][3] is V0 for e in M.log),
+             "lineage interface: %s returns the index of the first rule that fires (-1 if none), asking the rules in order with the current "
+             "and the birth time / volume" % what, "lineage %s" % what, K)
+    for k in range(nVE):
+        del M.log[:]
+        out = itf.apply_volume_event(k, ptr(interp, x.copy()), t, V)
+        _rep(c, [(e[0], e[1]) for e in M.log] == [("volume_event", k)] and out is M.log[0][4] and M.log[0][3][0] is V and M.log[0][3][1] is t,
+             "lineage interface: volume event %d is applied by event object %d at the current volume and time" % (k, k), "lineage volume event index", K)
+    cs = L.ns["LineageVolumeCellState"](v0=1, t0=0, state=np.zeros(S, dtype=object))
+    for code in range(-1, nDR + nDE + 1):
+        del M.log[:]
+        try:
+            res = itf.partition(code, cs)
+            got = (M.log[0][0], M.log[0][1]) if len(M.log) == 1 else None
+        except ValueError:
+            got = "rejected"
+        except IndexError:
+            got = "an index outside the splitter lists"
+        want = ("rule_splitter", code) if 0 <= code < nDR else ("event_splitter", code - nDR) if nDR <= code < nDR + nDE else "rejected"
+        _rep(c, got == want, "lineage interface: division code %d (%d rules, %d events) is partitioned by %s" % (code, nDR, nDE, want),
+             "lineage division code decoding", K)
+
+
 def check(tier):
     ck = Check("C19", "model_checking", tier)
     mx = 2 if tier == "quick" else 3
@@ -634,6 +775,8 @@ def check(tier):
                 ck.add("single-cell-aligned/S%dR%dT%d/ci%d" % (S, R, T, ci), "harness.C19", "single_cell_step",
                        dict(cases=[(S, R, a, b, d, T, ci)], aligned=True))
     ck.add("entry-end-to-end", "harness.C19", "entry_job", dict(cases=[(3,), (4,)]), fresh=True)
+    for cse in [(2, 2, 2, 2, 2, 2, 2, 1), (1, 1, 1, 1, 0, 0, 1, 2)] + ([(2, 1, 0, 3, 1, 1, 0, 1), (2, 2, 3, 0, 2, 2, 3, 0)] if tier == "thorough" else []):
+        ck.add("lineage-interface/%s" % "-".join(map(str, cse)), "harness.C19", "lineage_interface_job", dict(cases=[cse]))
     qs = [(1, 0, 2, 1), (2, 0, 3, 2), (2, 1, 3, 1), (3, 1, 3, 1)] + ([(3, 2, 4, 2), (4, 0, 4, 3), (4, 3, 4, 1)] if tier == "thorough" else [])
     for q in qs:
         ck.add("lineage-queue/n%d/pos%d/T%d" % q[:3], "harness.C19", "lineage_queue_step", dict(cases=[q]))
@@ -645,6 +788,8 @@ def check(tier):
         "p = V_d/V, which is Binomial(n,p) for i.i.d. uniforms (trusted)",
         "abstract lineage interface: arbitrary non-negative propensities (reactions, volume/division/death events), arbitrary rule "
         "outcomes, arbitrary volumes returned by volume rules/events (non-positive ones must be rejected by the loop)",
+        "the concrete LineageCSimInterface is executed on a model of recording stubs (rules, events, splitters, propensities return "
+        "fresh values): slot / index / division-code addressing is checked, the rule and event classes' own formulas are not",
         "lineage bookkeeping across cells: one iteration of SimulateCellLineage's queue loop (real simulate_cell_list, "
         "simulate_daughter_cells, truncate_timepoints_less_than, Schnitz, Lineage) from an arbitrary queue whose states and "
         "records are paired, with the single-cell simulation and the partition abstract (arbitrary end time >= start, fate, "
@@ -664,8 +809,13 @@ def check(tier):
                                                new="\t\t\tself.daughter_schnitz2.set_parent(self.daughter_schnitz1)"), "queue"),
             ("queue-skips-record", dict(module="bioscrape.lineage", old="\t\t\tif create_schnitzes:\n\t\t\t\tself.old_schnitzes.append(self.daughter_schnitz1)",
                                         new="\t\t\tif create_schnitzes and self.d1final.get_dead() < 0:\n\t\t\t\tself.old_schnitzes.append(self.daughter_schnitz1)"), "queue")]
+    mut += [("division-event-splitter-not-offset", dict(module="bioscrape.lineage", old="\t\t\tvsplit_ind = vsplit_ind - self.num_division_rules\n", new="\t\t\tvsplit_ind = vsplit_ind\n"), "litf"),
+            ("death-rule-returns-flag", dict(module="bioscrape.lineage", old="\t\t\tisdead = (<DeathRule>self.c_death_rules[0][ind]).check_dead(state, self.c_param_values, time, volume, start_time, start_volume)\n\t\t\tif isdead > 0:\n\t\t\t\treturn ind",
+                                             new="\t\t\tisdead = (<DeathRule>self.c_death_rules[0][ind]).check_dead(state, self.c_param_values, time, volume, start_time, start_volume)\n\t\t\tif isdead > 0:\n\t\t\t\treturn isdead"), "litf")]
     for name, m, w in mut:
-        if w == "queue":
+        if w == "litf":
+            ck.add_mutant(name, m, w, "harness.C19", "lineage_interface_job", dict(cases=[(2, 2, 2, 2, 2, 2, 2, 1)]))
+        elif w == "queue":
             ck.add_mutant(name, m, w, "harness.C19", "lineage_queue_step", dict(cases=[(2, 1, 3, 1)]))
         elif w == "split_l":
             ck.add_mutant(name, m, w, "harness.C19", "splitter_job", dict(cases=[("lineage", ("binomial", "perfect"), 2, "binomial")]), unwind=5)
